@@ -270,7 +270,7 @@ def sequence(mon, rng, kind):
                 shadow.clear()
                 ops.append(("clear",))
             else:
-                N = int(rng.choice([1, 1, 2, 3, 5, 7]))
+                N = int(rng.choice([1, 1, 2, 3, 5, 7, 30]))
                 Xte = rng.random((N, d)) if rng.random() < 0.8 else pool[rng.integers(len(pool), size=N)]
                 if shadow.n_pending() != shadow.n_active():
                     mon.count("stale_predicts")
